@@ -1242,6 +1242,9 @@ pub fn boundary_plan() -> Vec<(&'static str, usize)> {
             p.push((c, r));
         }
     }
+    for c in ["worktop_split_exact", "worktop_take_over"] {
+        p.push((c, 0));
+    }
     for r in 0..2 {
         for c in ["recall_zero", "recall_over", "recall_exact", "recall_zero_from_empty", "recall_then_burn"] {
             p.push((c, r));
@@ -1251,13 +1254,13 @@ pub fn boundary_plan() -> Vec<(&'static str, usize)> {
         "nf_create_initial", "nf_create_none", "nf_create_named", "nf_mint_empty", "nf_mint_one", "nf_mint_existing", "nf_burn_one", "nf_remint_burnt",
         "nf_mint_burn_same_tx", "nf_remint_after_same_tx", "nf_take_ids_one_new_vault", "nf_take_ids_missing", "nf_take_amount_zero", "nf_take_amount_one",
         "nf_take_amount_fraction", "nf_take_amount_over", "nf_take_amount_all", "nf_deposit_back", "nf_burn_last_id", "nf_recall_last_id", "nf_recall_then_burn",
-        "nf_burn_all", "nf_untracked_mint", "nf_untracked_burn", "nf_data_update", "nf_data_internal_ref",
+        "nf_recall_amount_one", "nf_take_amount_huge", "nf_burn_all", "nf_untracked_mint", "nf_untracked_burn", "nf_data_update", "nf_data_internal_ref", "nf_create_empty_initial",
     ] {
         p.push((c, 0));
     }
     for c in [
         "fee_account_plain", "fee_contingent_success", "fee_contingent_failure", "fee_two_locks_last_pays", "fee_split_payment", "fee_lock_zero",
-        "fee_lock_exact_balance", "fee_lock_over_balance", "fee_reject_insufficient", "fee_failure_plain",
+        "fee_lock_exact_balance", "fee_lock_over_balance", "fee_reject_insufficient", "fee_failure_plain", "fee_lock_exact_cost", "fee_lock_one_atto_short",
     ] {
         p.push((c, 0));
     }
@@ -1406,6 +1409,17 @@ impl World {
                 };
                 Self::stx(class, b, vec![0], Meta::None, class == "burn_over")
             }
+            "worktop_split_exact" | "worktop_take_over" => {
+                let f = self.sf(0);
+                let over = class == "worktop_take_over";
+                let b = self
+                    .sb()
+                    .withdraw_from_account(a0, f.addr, dec!(10))
+                    .take_from_worktop(f.addr, if over { dec!("10.000000000000000001") } else { dec!(10) }, "w")
+                    .try_deposit_or_abort(a1, None, "w")
+                    .try_deposit_entire_worktop_or_abort(a0, None);
+                Self::stx(class, b, vec![0], Meta::None, over)
+            }
             // ------------------------------------------------------------- recall (from account 1's vault)
             "recall_zero" | "recall_over" | "recall_exact" | "recall_zero_from_empty" | "recall_then_burn" => {
                 let f = self.sf(r);
@@ -1508,6 +1522,24 @@ impl World {
                 let b = if class == "nf_recall_then_burn" { b.burn_all_from_worktop(t.addr) } else { b.try_deposit_entire_worktop_or_abort(a3, None) };
                 Self::stx(class, b, vec![0], Meta::None, false)
             }
+            "nf_recall_amount_one" => {
+                let t = self.script.n.first()?.clone();
+                let v = self.vault_of(0, t.addr)?;
+                let b = self.sb().recall(InternalAddress::new_or_panic(v.0), Decimal::ONE).try_deposit_entire_worktop_or_abort(a0, None);
+                Self::stx(class, b, vec![], Meta::None, false)
+            }
+            "nf_take_amount_huge" => {
+                let t = self.script.n.first()?.clone();
+                let b = self.sb().withdraw_from_account(a0, t.addr, Decimal::from(4294967296u64)).try_deposit_entire_worktop_or_abort(a2, None);
+                Self::stx(class, b, vec![0], Meta::None, true)
+            }
+            "nf_create_empty_initial" => {
+                let b = self
+                    .sb()
+                    .create_non_fungible_resource(OwnerRole::None, NonFungibleIdType::Integer, true, all_roles_n(), metadata!(), Some(Vec::<(NonFungibleLocalId, ())>::new()))
+                    .try_deposit_entire_worktop_or_abort(a0, None);
+                Self::stx(class, b, vec![], Meta::None, false)
+            }
             "nf_burn_all" => {
                 let t = self.script.n.first()?.clone();
                 let ids = self.ids_in(0, t.addr);
@@ -1557,6 +1589,17 @@ impl World {
                     _ => ManifestBuilder::new().lock_fee(a3, dec_of(&(&bal + 1))).get_free_xrd_from_faucet().try_deposit_entire_worktop_or_abort(a0, None),
                 };
                 Self::stx(class, b, vec![3], Meta::None, class != "fee_lock_exact_balance")
+            }
+            "fee_lock_exact_cost" | "fee_lock_one_atto_short" => {
+                // learn the exact cost of this very manifest shape without committing, then lock exactly that / one atto less
+                let shape = |amt: Decimal| ManifestBuilder::new().lock_fee(a0, amt).get_free_xrd_from_faucet().try_deposit_entire_worktop_or_abort(a2, None);
+                let probe = Self::stx(class, shape(dec!(10)), vec![0], Meta::None, false);
+                let exe = self.executable(&probe, 7_000_000).ok()?;
+                let receipt = self.ledger.execute_transaction_no_commit(exe, Self::config(&probe));
+                let fs = &receipt.fee_summary;
+                let total = big(fs.total_execution_cost_in_xrd) + big(fs.total_finalization_cost_in_xrd) + big(fs.total_tipping_cost_in_xrd) + big(fs.total_storage_cost_in_xrd) + big(fs.total_royalty_cost_in_xrd);
+                let amt = if class == "fee_lock_exact_cost" { total } else { total - 1 };
+                Self::stx(class, shape(dec_of(&amt)), vec![0], Meta::None, class != "fee_lock_exact_cost")
             }
             "fee_failure_plain" => Self::stx(class, self.sb().assert_worktop_contains(XRD, dec!(1)), vec![], Meta::None, true),
             // ------------------------------------------------------------- royalties
